@@ -242,6 +242,11 @@ func (g *c35G) genHLS() *c35Input {
 
 // ---------------------------------------------------------------- Control API
 
+// The hlsmuxers/* and hlssessions/* routes are left out on purpose (and metrics scrapes always carry a type filter
+// other than hls_muxers / hls_sessions): a request that makes hls.Server.run take a muxer's lock while publishers come
+// and go can dead-lock pathManager, hls.Server and the muxer (known finding c40-hls-muxer-pathmanager-deadlock, a hang,
+// i.e. C40's business). hlsAlwaysRemux stays on in the Core under test because the crashes C35 looks for sit behind
+// the HLS muxer that it attaches to every publisher.
 var c35APIRoutes = []struct {
 	method, route string
 	kind          string
@@ -262,11 +267,6 @@ var c35APIRoutes = []struct {
 	{"GET", "/v3/paths/get/", "name"},
 	{"GET", "/v3/paths/forward/list", "forwardlist"},
 	{"GET", "/v3/paths/forward/get", "forwardget"},
-	{"GET", "/v3/hlsmuxers/list", "list"},
-	{"GET", "/v3/hlsmuxers/get/", "name"},
-	{"GET", "/v3/hlssessions/list", "list"},
-	{"GET", "/v3/hlssessions/get/", "id"},
-	{"POST", "/v3/hlssessions/kick/", "kick"},
 	{"GET", "/v3/rtspconns/list", "list"},
 	{"GET", "/v3/rtspconns/get/", "id"},
 	{"GET", "/v3/rtspsessions/list", "list"},
@@ -291,6 +291,18 @@ var c35APIRoutes = []struct {
 	{"GET", "/v3/recordings/get/", "name"},
 	{"DELETE", "/v3/recordings/deletesegment", "recdelete"},
 }
+
+// c35NonEmptyLists: indexes of config/paths/list, paths/list, recordings/list.
+var c35NonEmptyLists = func() []int {
+	var out []int
+	for i, r := range c35APIRoutes {
+		switch r.route {
+		case "/v3/config/paths/list", "/v3/paths/list", "/v3/recordings/list":
+			out = append(out, i)
+		}
+	}
+	return out
+}()
 
 // invalidJSON draws a body that the configuration decoder must refuse: every object carries an unknown field,
 // everything else has the wrong top-level type or is not JSON. (API writes that succeed would change the server
@@ -378,7 +390,7 @@ func (g *c35G) genAPI() *c35Input {
 	in := g.httpInput("api", "tcp", "api")
 	rt := c35APIRoutes[g.x.Intn(len(c35APIRoutes))]
 	if g.chance(5) { // the lists that are never empty on this server
-		rt = c35APIRoutes[[]int{6, 12, 16, 41}[g.x.Intn(4)]]
+		rt = c35APIRoutes[c35NonEmptyLists[g.x.Intn(len(c35NonEmptyLists))]]
 	}
 	pag := func() string {
 		if g.chance(3) {
@@ -423,7 +435,7 @@ func (g *c35G) genAPI() *c35Input {
 		g.addReq(in, g.httpReq(rt.method, rt.route+g.query("path", g.path(), "start", g.timeStr()), nil, ""), false)
 	}
 	if g.odd(8) { // wrong method on a known route / unknown route
-		g.addReq(in, g.httpReq(g.pick("GET", "POST", "DELETE", "PATCH", "PUT", "OPTIONS"), g.pick("/", "/v3", "/v3/", "/v2/paths/list", "/v3/paths", "/v3/paths/list/", "/v3/paths/get", "/v3/paths/get/", "/v3/config/paths/get//", "/v3/recordings/get/", "/v3/%2e%2e/", "/V3/info", "/v3/rtspsessions/kick/", "/v3/hlssessions/get/"), nil, ""), true)
+		g.addReq(in, g.httpReq(g.pick("GET", "POST", "DELETE", "PATCH", "PUT", "OPTIONS"), g.pick("/", "/v3", "/v3/", "/v2/paths/list", "/v3/paths", "/v3/paths/list/", "/v3/paths/get", "/v3/paths/get/", "/v3/config/paths/get//", "/v3/recordings/get/", "/v3/%2e%2e/", "/V3/info", "/v3/rtspsessions/kick/", "/v3/srtconns/get/"), nil, ""), true)
 	}
 	g.deliver(in)
 	in.Note = "api: " + in.Note
@@ -471,19 +483,26 @@ func (g *c35G) genPlayback() *c35Input {
 
 func (g *c35G) genMetrics() *c35Input {
 	in := g.httpInput("metrics", "tcp", "metrics")
-	keys := []string{"type", "path", "forward_dest", "hls_muxer", "hls_session", "rtsp_conn", "rtsp_session", "rtsps_conn", "rtsps_session", "rtmp_conn", "rtmps_conn", "srt_conn", "webrtc_session", "moq_session"}
+	keys := []string{"path", "forward_dest", "rtsp_conn", "rtsp_session", "rtsps_conn", "rtsps_session", "rtmp_conn", "rtmps_conn", "srt_conn", "webrtc_session", "moq_session"}
+	// always a type filter, never hls_muxers / hls_sessions and never empty (see the note above c35APIRoutes)
+	typ := g.pick("paths", "paths", "forward_dests", "rtsp_conns", "rtsp_sessions", "rtsps_conns", "rtsps_sessions", "rtmp_conns", "rtmps_conns", "srt_conns", "webrtc_sessions", "moq_sessions")
+	if g.odd(6) {
+		typ = g.pick("x", "Paths", "paths ", "%00", "hls", g.token()+"x")
+	}
+	q := "?type=" + typ
 	var kv []string
 	for i := 0; i < g.rng(0, 3); i++ {
 		k := keys[g.x.Intn(len(keys))]
 		v := g.pick("live", "00000000-0000-0000-0000-000000000000", "x")
-		if k == "type" {
-			v = g.pick("paths", "forward_dests", "hls_muxers", "hls_sessions", "rtsp_conns", "rtsp_sessions", "rtsps_conns", "rtmp_conns", "srt_conns", "webrtc_sessions", "moq_sessions", "x", "", "Paths")
-		} else if g.odd(3) {
+		if g.odd(3) {
 			v = g.token()
 		}
 		kv = append(kv, k, v)
 	}
-	g.addReq(in, g.httpReq("GET", g.oddPath("/metrics")+g.query(kv...), nil, ""), false)
+	if rest := g.query(kv...); rest != "" {
+		q += "&" + rest[1:]
+	}
+	g.addReq(in, g.httpReq("GET", g.oddPath("/metrics")+q, nil, ""), false)
 	g.deliver(in)
 	in.Note = "metrics: " + in.Note
 	return in
